@@ -105,10 +105,16 @@ let snapshot id step (inp : input) (s : state) =
   List.iteri (fun vi r ->
     Printf.printf "%s route %d : %s\n" p vi
       (String.concat " " (List.map (fun c -> string_of_int (n2i c.c_stop)) r));
+    (* slack (derived observable, cached by isFeasible): waiting time from this stop to the end of the route;
+       the first stop of a vehicle is never assigned *)
+    let waits = List.map (fun c -> Model.Z.sub c.c_start c.c_arrival) r in
+    let rec suffix = function [] -> [] | w :: rest -> (match suffix rest with [] -> [w] | (x :: _) as l -> Model.Z.add w x :: l) in
+    let slacks = Array.of_list (suffix waits) in
     List.iteri (fun i c ->
-      Printf.printf "%s cell %d %d %d tr %s ct %s a %s s %s e %s L %s D %s W %s P %d\n" p vi i (n2i c.c_stop)
+      Printf.printf "%s cell %d %d %d tr %s ct %s a %s s %s e %s L %s D %s W %s P %d K %s\n" p vi i (n2i c.c_stop)
         (zs c.c_travel) (zs c.c_cumtravel) (zs c.c_arrival) (zs c.c_start) (zs c.c_end)
-        (let l = String.concat "," (List.map (fun l -> if has_capacity inp then zs l else "0") c.c_levels) in if l = "" then "-" else l) (if has_distance_limit inp then zs c.c_cumdist else "0") (if has_max_wait_vehicle inp then zs c.c_wait_acc else "0") (n2i c.c_pos)) r)
+        (let l = String.concat "," (List.map (fun l -> if has_capacity inp then zs l else "0") c.c_levels) in if l = "" then "-" else l) (if has_distance_limit inp then zs c.c_cumdist else "0") (if has_max_wait_vehicle inp then zs c.c_wait_acc else "0") (n2i c.c_pos)
+        (if i = 0 then "-" else zs slacks.(i))) r)
     s.st_routes;
   Printf.printf "%s planned %s\n" p (keys inp s.st_planned);
   Printf.printf "%s unplanned %s\n" p (keys inp s.st_unplanned);
@@ -193,7 +199,7 @@ let run_engine (id, lines) =
         let rec pairs = function a :: b :: t -> (i2n (int_of_string a), b = "1") :: pairs t | _ -> [] in
         initials := !initials @ [(int_of_string v, pairs r)]
     | "nres" :: [k] -> nres := int_of_string k
-    | ["user"; f; mx; vl; tp] ->
+    | "user" :: f :: mx :: vl :: tp :: _ ->
         let field =
           (match f with
            | "pos" -> UPos | "arrival" -> UArrival | "start" -> UStart | "end" -> UEnd
